@@ -476,6 +476,10 @@ def run(ctx):
              ctx.loc(gq))
 
     # ---- R4 what is started, on whose behalf; creation validates ---------------
+    r6 = ctx.rule('R6', 'the request that starts the workflow is sent once '
+                  '(no resend in the RPC client layer)', 'PAIR (paths)')
+    from mstatic.rules import shared as _shr
+    _shr.rpc_request_sent_once(ctx, r6)
     r4 = ctx.rule('R4', 'the workflow is started with the trigger\'s input '
                   'and params under its security context; creation '
                   'validates first', 'AGREE')
